@@ -17,9 +17,15 @@ import (
 
 func (b *Body) keysNeverReordered(l *Ledger) {
 	// values that denote the key list of some object, or a piece of it
+	// parameters of library functions that some call hands a key list (found by iteration:
+	// a helper that sorts "two name lists" is judged on the lists it is actually given)
+	keysParams := map[*ssa.Parameter]bool{}
 	keysDerived := func(v ssa.Value) bool {
 		for d := 0; d < 6; d++ {
 			if _, ok := pdLoad(v, "keys"); ok {
+				return true
+			}
+			if p, ok := v.(*ssa.Parameter); ok && keysParams[p] {
 				return true
 			}
 			sl, ok := v.(*ssa.Slice)
@@ -29,6 +35,27 @@ func (b *Body) keysNeverReordered(l *Ledger) {
 			v = sl.X
 		}
 		return false
+	}
+	for changed, round := true, 0; changed && round < 5; round++ {
+		changed = false
+		for _, fn := range b.srcFuncs(b.Lib) {
+			allInstrs(fn, func(i ssa.Instruction) {
+				ci, ok := i.(ssa.CallInstruction)
+				if !ok {
+					return
+				}
+				g := ci.Common().StaticCallee()
+				if g == nil || g.Pkg != b.Lib || len(g.Blocks) == 0 {
+					return
+				}
+				for ai, a := range ci.Common().Args {
+					if ai < len(g.Params) && !keysParams[g.Params[ai]] && keysDerived(a) {
+						keysParams[g.Params[ai]] = true
+						changed = true
+					}
+				}
+			})
+		}
 	}
 	isShift := func(dst, src ssa.Value) bool {
 		// dst = keys[i:…], src = keys[i+1:…]
